@@ -465,3 +465,32 @@ def rule_pairs_broadcast(ctx) -> RuleResult:
     if not found:
         raise AnalysisError("groupby_reduce: the partial-axis branch (_move_reduce_dims_to_end on the labels under an .ndim test) was not found (anchor)")
     return res
+
+
+# ---------------------------------------------------------------------------------------------
+# R-PAIRS[broadcast-any-nax] (C08, C19): inside chunk_reduce the size-1 broadcast of the codes is not restricted to multi-axis reductions.
+def rule_pairs_broadcast_nax(ctx) -> RuleResult:
+    res = RuleResult("R-PAIRS[broadcast-nax]", "the size-1 broadcast of the codes in chunk_reduce applies to any number of reduced axes", min_instances=1)
+    f = ctx.prog.func("core.chunk_reduce")
+    pm = parents_map(f.node)
+    bcs = [c for c in calls_in(f.node) if norm(c.func).endswith("broadcast_to") and len(c.args) >= 2 and ".shape" in norm(c.args[1])
+           and isinstance(c.args[0], ast.Name)]
+    if not bcs:
+        raise AnalysisError("chunk_reduce: no broadcast of the codes to the array's shape (anchor)")
+    for c in bcs:
+        restr = []
+        for a in ancestors(c, pm):
+            if isinstance(a, ast.If):
+                for cmp_ in ast.walk(a.test):
+                    if isinstance(cmp_, ast.Compare) and len(cmp_.ops) == 1 and isinstance(cmp_.comparators[0], ast.Constant) \
+                            and isinstance(cmp_.comparators[0].value, int) and (norm(cmp_.left) in ("nax", "len(axes)", "len(axis)")):
+                        k, op = cmp_.comparators[0].value, cmp_.ops[0]
+                        holds_for_1 = {ast.Gt: 1 > k, ast.GtE: 1 >= k, ast.Eq: 1 == k, ast.NotEq: 1 != k, ast.Lt: 1 < k, ast.LtE: 1 <= k}.get(type(op), True)
+                        if not holds_for_1:
+                            restr.append(norm(cmp_))
+        res.inst(f"chunk_reduce: '{norm(c)[:60]}' guarded by an axis-count test that excludes a single reduced axis: {restr or False}", f"bc|{c.lineno}")
+        if restr:
+            res.report("core.chunk_reduce|broadcast-only-multi-axis", f.where(c), f.qualname,
+                       f"the codes are broadcast to the array's shape only when {restr[0]}: with one reduced axis, labels of shape (1,) (accepted by "
+                       "_assert_by_is_aligned) give one code for several values -- AssertionError in _prepare_for_flox (engine='flox')")
+    return res
